@@ -13,6 +13,14 @@ or length).  The vocabulary they are stated with (`sem`, `semB`, `valAt`, `polar
 `LenaModel/Lemmas/C15.lean`.  Each theorem quotes the sentence of the property it formalises and is followed
 by an `example` with a concrete instance.
 
+Judgements (also in `harness/props/c15.py`, ASSUMPTIONS): a callable is modelled by the truth value of its
+result ("selected" = true; `Selector.__call__` handing back the raw object is not modelled); exceptions are
+`Exception`s of any class (`BaseException`s pass `except Exception` by design), with the PEP 479 conversion of
+`StopIteration` into `RuntimeError` inside the generator expressions of `And/Or.__call__`, `Filter.run` and in
+`RunIf.run` transcribed (`pep479`); the string-level theorems carry the hypothesis `KeysKnown` (every listed
+sub-key is in the key alphabet — otherwise the index paths of the model conflate keys); the theorems that only
+relate specification-side definitions to each other are listed as auxiliary (`AUX_THEOREMS`).
+
 Part 1: `Selector`/`And`/`Or`/`Not`/`SelectContext`/`Filter`.  Part 2: `make_include_exclude_tree` and
 `IncludeExcludeTree.get` are the longest-listed-prefix rule.  Part 3: `GroupBy`. -/
 
